@@ -140,12 +140,8 @@ def ambiguity_search(pats, budget, deadline):
                 # the same text through compile(), embedded as it is and inside a few contexts
                 for ctx in ('%s', 'a%sb', ':is(a%s', '[a%s=', 'div%sp'):
                     text = ctx % (u * (len(hit['subject']) // max(len(u), 1)))
-                    t0 = time.perf_counter()
-                    try:
-                        cp.CSSParser(hit['subject'] if ctx == '%s' else text).process_selectors()
-                    except Exception:
-                        pass
-                    dt = time.perf_counter() - t0
+                    dt = framework.run_limited(lambda: cp.CSSParser(hit['subject'] if ctx == '%s' else text).process_selectors(), 3 * budget)
+                    dt = 3 * budget if dt is None else dt
                     if dt > budget:
                         hit['compile_input'] = hit['subject'] if ctx == '%s' else text
                         hit['compile_seconds'] = round(dt, 2)
@@ -156,13 +152,9 @@ def ambiguity_search(pats, budget, deadline):
                     import bs4
                     doc = bs4.BeautifulSoup('<p></p>', 'html.parser')
                     doc.p['a'] = hit['subject']
-                    t0 = time.perf_counter()
-                    try:
-                        sv.select(msel.group(1), doc)
-                    except Exception:
-                        pass
+                    dt = framework.run_limited(lambda: sv.select(msel.group(1), doc), 3 * budget)
                     hit['select_call'] = f"select({msel.group(1)!r}, <p a={hit['subject']!r}>)"
-                    hit['select_seconds'] = round(time.perf_counter() - t0, 2)
+                    hit['select_seconds'] = round(3 * budget if dt is None else dt, 2)
                 found.append(hit)
                 break
     return found, [o for o, _ in unsafe], tried
@@ -206,14 +198,20 @@ def run(chk):
         ts = []
         for n in sizes:
             s = f(n)
-            t0 = time.perf_counter()
-            try:
-                cp.CSSParser(s).process_selectors()
-            except (sv.SelectorSyntaxError, NotImplementedError):
-                pass
-            except RecursionError:
-                pass
-            dt = time.perf_counter() - t0
+            if ts and ts[-1] > 0.002:
+                # the previous size was not instantaneous: a super-polynomial family may need hours at this size, inside the
+                # regex engine where nothing can interrupt it — measure in a child that can be killed
+                dt = framework.run_limited(lambda: cp.CSSParser(s).process_selectors(), 3 * budget)
+                dt = 3 * budget if dt is None else dt
+            else:
+                t0 = time.perf_counter()
+                try:
+                    cp.CSSParser(s).process_selectors()
+                except (sv.SelectorSyntaxError, NotImplementedError):
+                    pass
+                except RecursionError:
+                    pass
+                dt = time.perf_counter() - t0
             ts.append(dt)
             if dt > budget:
                 slow.append({'family': fam, 'n': n, 'seconds': round(dt, 3), 'pattern_prefix': s[:60], 'length': len(s)})
@@ -275,12 +273,19 @@ def run(chk):
         ts = []
         for n in sizes:
             s = f(n)
-            t0 = time.perf_counter()
-            for ty in ('number', 'date', 'week', 'time', 'month', 'datetime-local'):
-                cm.Inputs.parse_value(ty, s)
-            cm.CSSMatch.extended_language_filter(None, s, 'a-b')
-            cm.RE_NOT_WS.findall(s)
-            dt = time.perf_counter() - t0
+
+            def doc_work():
+                for ty in ('number', 'date', 'week', 'time', 'month', 'datetime-local'):
+                    cm.Inputs.parse_value(ty, s)
+                cm.CSSMatch.extended_language_filter(None, s, 'a-b')
+                cm.RE_NOT_WS.findall(s)
+            if ts and ts[-1] > 0.002:
+                dt = framework.run_limited(doc_work, 3 * budget)
+                dt = 3 * budget if dt is None else dt
+            else:
+                t0 = time.perf_counter()
+                doc_work()
+                dt = time.perf_counter() - t0
             ts.append(dt)
             if dt > budget:
                 slow.append({'family': 'doc:' + fam, 'n': n, 'seconds': round(dt, 3)})
